@@ -6,5 +6,5 @@ cd /verif
 list=$(mktemp)
 for m in selftest/mutants/*.patch; do p=$(basename $m | cut -d- -f1); for s in $seeds; do echo "$m $p $s"; done; done | grep -E "$pat" > $list
 for d in seeded/C*/; do p=$(basename $d | cut -c1-3); f=$d/patch_on_fixed_tree.diff; [ -f $f ] || f=$d/patch.diff; for s in $seeds; do echo "$f $p $s"; done; done | grep -E "$pat" >> $list
-cat $list | xargs -P $jobs -L 1 bash -c 'out=$(VERIF_SEED=$2 timeout 1500 selftest/run_mutant.sh $0 $1 quick 2>&1); rc=$?; k=$(echo "$out" | grep -o "kind=[a-z-]*" | head -1); if echo "$out" | grep -q PATCH-FAILED; then v=PATCH-FAILED; elif [ $rc -eq 1 ]; then v="CAUGHT($k)"; elif [ $rc -eq 0 ]; then v=MISSED; else v="RC$rc"; fi; echo "$v $1 seed=$2 $(basename $0)"'
+cat $list | xargs -P $jobs -L 1 bash -c 'out=$(VERIF_SEED=$2 timeout 1500 selftest/run_mutant.sh $0 $1 quick 2>&1); rc=$?; k=$(echo "$out" | grep -o "kind=[a-z-]*" | head -1); if echo "$out" | grep -q PATCH-FAILED; then v=PATCH-FAILED; elif [ $rc -eq 1 ]; then v="CAUGHT($k)"; elif [ $rc -eq 0 ]; then v=MISSED; else v="RC$rc"; fi; echo "$v $1 seed=$2 $(echo $0 | sed "s#selftest/mutants/##; s#^seeded/##")"'
 rm -f $list
